@@ -1203,7 +1203,12 @@ void mmd_export_token_html(DString * out, const char * source, token * t, scratc
 		case ESCAPED_CHARACTER:
 			if (!(scratch->extensions & EXT_COMPATIBILITY) &&
 					(source[t->start + 1] == ' ')) {
-				print_const("&nbsp;");
+				if (scratch->output_format == FORMAT_EPUB) {
+					// XHTML defines no named entities beyond the five of XML
+					print_const("&#160;");
+				} else {
+					print_const("&nbsp;");
+				}
 			} else {
 				mmd_print_char_html(out, source[t->start + 1], false, false);
 			}
